@@ -89,8 +89,10 @@ Spawn(p, c) ==
 (* histogram arithmetic with an array-like operand (h + array, array + h, zeros + h, h += array, h * array, *)
 (* array * h, h - array, h / array, list + h) or producing a negative content (h * (-1), a - b with b > a): *)
 (* accepted iff free arithmetics is on in e's context; `accepted` is the expected outcome.                 *)
+(* add_negative / iadd_negative / sum_negative: an operand that already holds negative contents (made earlier, legally, *)
+(* inside a free-arithmetics block) is added where the sum has a negative bin.                                          *)
 ArithKinds == {"array", "rarray", "rzeros", "iadd_array", "mul_array", "rmul_array", "sub_array", "div_array", "rlist",
-               "negative", "sub_below_zero"}
+               "negative", "sub_below_zero", "add_negative", "iadd_negative", "sum_negative"}
 Arith(e, what, accepted) ==
     /\ Live /\ Running(e)
     /\ accepted = Value(e)
